@@ -74,6 +74,7 @@ fn main() {
             let code = match args[2].as_str() {
                 "dump" => xproc::dump_main(&args[3], &args[4]),
                 "runb" => xproc::runb_main(&args[3], &args[4]),
+                "killrun" => xproc::killrun_main(&args[3], args[4].parse().unwrap()),
                 _ => 2,
             };
             std::process::exit(code);
